@@ -493,6 +493,8 @@ def np_call(ev, name, args, kwargs, node):
         if rn in ("default_rng", "RandomState", "Generator"):
             return Sym(draw.name.replace("draw", "rng"), ("rng", "fresh_rng"))
         return r
+    if name == "isclose" and len(A) == 2 and not kwargs and same(as_v(ev, A[0]), as_v(ev, A[1])):
+        return TRUE
     if name in PURE_UNINTERPRETED:
         return App(name, [as_v(ev, a) for a in A], _kw(ev, kwargs))
     ev.note_unmodelled("numpy." + name, node)
